@@ -17,7 +17,7 @@ public:
       : _fs{sample_rate}
       , _freq{freq}
       , _periodic{freq == std::floor(freq)} {
-        DSPLIB_ASSERT(std::abs(_freq) <= (_fs / 2), "tuner freq must be in range (-fs/2 : fs/2)");
+        DSPLIB_ASSERT(std::abs(_freq) <= (_fs / 2.0), "tuner freq must be in range (-fs/2 : fs/2)");
     }
 
     arr_cmplx process(const arr_cmplx& x) {
